@@ -244,6 +244,7 @@ def run(ctx):
         seeds = pools.recipes(cls, 2, 3)
         if ctx.quick:
             seeds = [r for r in seeds if len(r[2]) <= 1] + [r for r in seeds if len(r[2]) == 2][::6]
+            ctx.cap_hit("class sections: depth-2 seeds of %s every 6th (depth <= 1 complete)" % cls)
         plan.append("%s: %d seeds, chains <= 1" % (cls, len(seeds)))
         for p in pmap(_explore, [(cls, s) for s in build.shards(seeds, 32)]):
             ctx.merge(p)
